@@ -213,7 +213,11 @@ class C15(object):
                 "quantum": rnd.choice([1, 2, 5]), "pct_d": rnd.choice([1, 2, 3]), "sseed": rnd.getrandbits(48),
                 "native": rnd.random() < 0.04, "layout": layout, "shape2": shape2, "big_clean": big_clean,
                 "idx_dtype": rnd.choice(["int64", "int64", "int64", "int32", "uint32", "uint16", "uint64"]),
-                "merge_calls": [rnd.random() < 0.5 for _ in range(rnd.choice([0, 0, 1, 2]))]}
+                "merge_calls": [rnd.random() < 0.5 for _ in range(rnd.choice([0, 0, 1, 2]))],
+                # motor positions as the data files hold them: float64, float32, or whole numbers stored as integers
+                "motor_dtype": rnd.choice(["float64", "float64", "float32", "int64"]),
+                # the overlap matrix is dumped to a file between labelling and merging
+                "dump_between": rnd.random() < 0.2}
 
     def describe(self, desc):
         return {k: desc[k] for k in ("n", "kind", "edges", "T", "chunking", "strategy", "p_inv", "sseed")}
@@ -337,8 +341,16 @@ class C15(object):
         def V(cls, detail):
             return {"class": cls, "key": "ndmerge:" + cls, "detail": detail}
 
-        def lay(vals):
+        mdt = desc.get("motor_dtype", "float64")
+        if mdt == "int64":
+            desc = dict(desc, omega=[float(round(x)) for x in desc["omega"]], dty=[float(round(x)) for x in desc["dty"]])
+        elif mdt == "float32":
+            desc = dict(desc, omega=[float(np.float32(x)) for x in desc["omega"]], dty=[float(np.float32(x)) for x in desc["dty"]])
+
+        def lay(vals, motor=False):
             a = np.array(vals, float)
+            if motor:
+                a = a.astype(mdt)
             L = desc.get("layout", "1d")
             if L == "1d":
                 return a
@@ -359,8 +371,15 @@ class C15(object):
                                   rc=np.array([ei, ej, np.ones(len(E), np.int64)], idt).reshape(3, len(E)))
             nl, lab = tab.find_uniq()
             res["nlabel"], res["labels"] = int(nl), np.array(lab)
-            om = lay(desc["omega"])
-            dy = lay(desc["dty"])
+            om = lay(desc["omega"], True)
+            dy = lay(desc["dty"], True)
+            if desc.get("dump_between"):
+                dump = os.path.join(ctx.scratch, "c15_dump_%d.h5" % os.getpid())
+                if os.path.exists(dump):
+                    os.remove(dump)
+                tab.find_uniq(outputfile=dump)      # writes the i/j/data file; the labelling above stays what it is
+                if tab.nlabel != res["nlabel"] or tab.glabel is None or not np.array_equal(np.asarray(tab.glabel), res["labels"]):
+                    res["dump_changed_labels"] = True
             sf = None if desc["scale"] is None else lay(desc["scale"])
             # the same table merged again (once without and once with the monitor scaling, as dataset code does): every
             # call must give the sums of that call
@@ -391,6 +410,8 @@ class C15(object):
             for nm, o in saved.items():
                 setattr(props, nm, o)
             props.numba = saved_numba
+        if viol is None and res.get("dump_changed_labels"):
+            viol = V("labels-not-0..n-1", "find_uniq(outputfile=...) on a table that was already labelled changed or dropped its labels")
         sweeps = self.state["calls"].get("numbalabelNd", 0)
         if viol is None:
             lab = res["labels"]
